@@ -10,7 +10,7 @@
    insertions no live node of Rl has a seen key; stable keys are keys of live nodes. *)
 From Coq Require Import List NArith ZArith Bool Arith Lia Permutation.
 Require Import Verif.MapSpec Verif.MapHashModel Verif.MapRefModel Verif.MapRefProofs Verif.MapHashProofs2
-  Verif.MapHashProofs3 Verif.MapHashProofs4.
+  Verif.MapHashProofs3 Verif.MapHashProofs4 Verif.MapHashProofs5.
 Import ListNotations.
 
 Definition Rl (s : hstate) (hi : hiter) : list nat :=
@@ -367,5 +367,88 @@ Proof.
   unfold h_iter_free. simpl. intros. destruct (hi_node hi) as [cur|] eqn:Hc.
   - eapply cov_unpark; eauto.
   - inversion H0; subst; auto.
+Qed.
+
+Lemma nodup_map_inj : forall {A B} (f : A -> B) l x y, NoDup (map f l) -> In x l -> In y l -> f x = f y -> x = y.
+Proof.
+  induction l; simpl; intros. contradiction. inversion H; subst. destruct H0, H1; subst; auto.
+  - exfalso. apply H5. rewrite H2. apply in_map; auto.
+  - exfalso. apply H5. rewrite <- H2. apply in_map; auto.
+Qed.
+
+(* ---------- the iterator's own step ---------- *)
+Lemma nodup_after_id_app : forall l cur Y, NoDup (l ++ Y) -> NoDup (after_id cur l ++ Y).
+Proof. induction l; simpl; intros; auto. inversion H; subst. destruct (Nat.eqb a cur); auto. Qed.
+
+Lemma nodup_rl : forall s hi, NoDup (linked s) -> NoDup (Rl s hi).
+Proof.
+  intros. unfold Rl. destruct (Nat.ltb (hi_bucket hi) (nb s)) eqn:E; [|constructor]. apply Nat.ltb_lt in E.
+  unfold linked in H. rewrite (concat_split (h_buckets s) (hi_bucket hi)) in H by exact E. apply nodup_app_r in H.
+  unfold cands_hi, bucket. destruct (hi_node hi); auto. apply nodup_after_id_app. auto.
+Qed.
+
+Lemma node_deref_nb : forall s cur s' ns, node_deref s cur = Ok (s', ns) -> nb s' = nb s.
+Proof.
+  unfold node_deref. intros. destruct (deref (h_heap s) cur); simpl in H; try discriminate.
+  destruct (hn_ref a); try discriminate. destruct n; inversion H; subst; unfold nb; simpl; auto. apply map_length.
+Qed.
+
+Lemma rl_end : forall s n, nb s <= n -> Rl s {| hi_node := None; hi_bucket := n |} = [].
+Proof. intros. unfold Rl. simpl. replace (Nat.ltb n (nb s)) with false; auto. symmetry. apply Nat.ltb_ge. auto. Qed.
+
+Lemma cov_next_own : forall s P hi c s' hi' r ns, GoodP s (hi :: P) -> GoodQ hf s -> CovOne s hi c ->
+  h_iter_next v_fixed s hi = Ok (s', hi', r, ns) ->
+  match r with
+  | None => (forall k, In k (c_stable c) -> In k (c_seen c)) /\ CovOne s' hi' c
+  | Some (k, _) => (c_ins c = false -> ~ In k (c_seen c)) /\
+                   CovOne s' hi' {| c_stable := c_stable c; c_seen := k :: c_seen c; c_ins := c_ins c |}
+  end.
+Proof.
+  intros s P hi c s' hi' r ns G Q CV E.
+  destruct (iter_next_safe s P hi G) as [s0 [hi0 [r0 [ns0 [E0 [_ [_ [s1 [S1 [G1 S2]]]]]]]]]].
+  rewrite E in E0. inversion E0; subst s0 hi0 r0 ns0. clear E0.
+  (* transfer of a fact about the new position from s to s' *)
+  assert (TR : forall c', CovOne s hi' c' -> CovOne s' hi' c').
+  { intros c' C0.
+    assert (C1 : CovOne s1 hi' c').
+    { destruct S1 as [S1|[id [n [I1 [I2 S1]]]]]; subst; auto. apply cov_same_view; auto. eapply same_view_store; eauto. }
+    destruct (hi_node hi) as [cur|] eqn:Hc.
+    - destruct S2 as [ns1 S2]. eapply (cov_unpark s1 _ hi cur _ ns1 hi' c' G1 Hc S2); auto. left; auto.
+    - subst. auto. }
+  destruct CV as [A B C].
+  destruct (iter_next_sem s P hi s' hi' r ns G E) as [[F [R1 R2]]|[nx [b' [F [R1 [R2 [[e R3] R4]]]]]]].
+  - subst r hi'. split.
+    + intros k Hk. assert (Hk2 := C k Hk). unfold lkeys in Hk2. apply in_map_iff in Hk2. destruct Hk2 as [x [X1 X2]]. subst k. destruct (A x X2 Hk) as [Q1|Q1]; auto.
+      exfalso. apply live_linked in X2. destruct X2 as [_ X2]. rewrite (find_none_all _ _ F x Q1) in X2. discriminate.
+    + apply TR. constructor.
+      * intros x Hx Hk. destruct (A x Hx Hk) as [Q1|Q1]; auto.
+        exfalso. apply live_linked in Hx. destruct Hx as [_ Hx]. rewrite (find_none_all _ _ F x Q1) in Hx. discriminate.
+      * intros _ x Hx. rewrite rl_end in Hx by lia. contradiction.
+      * exact C.
+  - subst r hi'. destruct e as [k v].
+    destruct (iter_next_returns_present s hi s' _ k v ns E) as [id [n [N1 [N2 [N3 [N4 N5]]]]]]. simpl in N5. inversion N5; subst id. clear N5.
+    destruct (find_split _ _ _ F) as [zs [rest [RS [ZS NL]]]].
+    assert (KN : key_of (h_heap s) nx = k) by (rewrite (key_of_deref _ _ _ N1); auto).
+    assert (NXR : In nx (Rl s hi)) by (rewrite RS; apply in_or_app; right; left; auto).
+    assert (NDR : NoDup (Rl s hi)) by (apply nodup_rl; apply (p_nodup _ _ G)).
+    assert (RN : Rl s {| hi_node := Some nx; hi_bucket := b' |} = rest).
+    { unfold Rl at 1. unfold cands_hi, bucket. cbn [hi_node hi_bucket]. apply Nat.ltb_lt in R2. rewrite R2. rewrite R4, RS.
+      rewrite after_id_app_notin. cbn [after_id]. rewrite Nat.eqb_refl. reflexivity.
+      intro Q1. rewrite (ZS nx Q1) in NL. discriminate. }
+    split.
+    + intros I Q1. apply (B I nx NXR NL). rewrite KN. auto.
+    + apply TR. constructor; simpl.
+      * intros x Hx Hk. destruct (A x Hx Hk) as [Q1|Q1]; auto. rewrite RS in Q1. apply in_app_or in Q1. destruct Q1 as [Q1|[Q1|Q1]].
+        { exfalso. apply live_linked in Hx. destruct Hx as [_ Hx]. rewrite (ZS x Q1) in Hx. discriminate. }
+        { subst x. right. left. auto. }
+        { left. rewrite RN. auto. }
+      * intros I x Hx L [Q1|Q1].
+        { (* two live nodes with the same key *)
+          rewrite RN in Hx. assert (x <> nx). { intro; subst x. rewrite RS in NDR. apply NoDup_remove_2 in NDR. apply NDR. apply in_or_app; auto. }
+          apply H. assert (XL : In x (live_ids s)). { unfold live_ids. apply filter_In. split; auto. apply rl_linked with (hi := hi). rewrite RS. apply in_or_app. right; right; auto. }
+          assert (NL2 : In nx (live_ids s)). { unfold live_ids. apply filter_In. split; auto. eapply rl_linked; eauto. }
+          apply (nodup_map_inj (key_of (h_heap s)) (live_ids s)); auto. apply (q_keys _ _ Q). congruence. }
+        { rewrite RN in Hx. apply (B I x); auto. rewrite RS. apply in_or_app. right; right; auto. }
+      * exact C.
 Qed.
 End Cov.
